@@ -226,3 +226,10 @@ def contracts(tier):
     yield ("CTCSkipInserter", "", contract)
     yield ("USB3PhysicalLayer(wiring)", "", physical_layer_wiring)
     yield ("USB3LinkLayer(wiring)", "", link_layer_wiring)
+    # callee contract this property leans on ("the scrambler does not advance over inserted SKPs", "never replaced, dropped or
+    # delayed"): the Scrambler as the physical layer instantiates it scrambles the word it is given in the SAME cycle and holds its
+    # keystream under `hold` (C31's leaf contract, re-checked here so that a scrambler that falls out of step with the inserter's
+    # same-cycle `sending_skip` / `can_send_skp` fails this check too, not only C31's)
+    from .c31_scrambling import make_scrambler
+    from luna.gateware.usb.usb3.physical.scrambling import Scrambler
+    yield ("Scrambler", "callee_contract_C31_init_ffff", make_scrambler(Scrambler, 0xFFFF))
